@@ -394,6 +394,69 @@ def _fit_check(cfg):
     return None
 
 
+def _scale_check(cfg):
+    """multiplying the image by k > 0 must not change the fitted geometry
+    (intensities scale with k)."""
+    from photutils.isophote import Ellipse, EllipseGeometry
+    img, (x0, y0) = _galaxy(cfg['frame'], cfg['eps'], cfg['pa'], 'gauss')
+
+    def run(k):
+        geo = EllipseGeometry(x0 + 0.3, y0 - 0.3, 8.0, cfg['eps'] + 0.05,
+                              cfg['pa'] - 0.1, linear_growth=cfg['linear'])
+        with warnings.catch_warnings():
+            warnings.simplefilter('ignore')
+            iso = Ellipse(img * k, geo).fit_image(
+                step=1.5 if cfg['linear'] else 0.2, minsma=1.0, maxsma=20.0,
+                linear=cfg['linear'])
+        return (np.asarray(iso.sma), np.asarray(iso.eps), np.asarray(iso.pa),
+                np.asarray(iso.x0), np.asarray(iso.y0),
+                np.asarray(iso.intens) / k)
+    base = run(1.0)
+    got = run(cfg['k'])
+    if len(got[0]) != len(base[0]) or not np.allclose(got[0], base[0]):
+        return f'k={cfg["k"]}: different sma list'
+    for name, a, b, tol in zip(('eps', 'pa', 'x0', 'y0', 'intens'), got[1:],
+                               base[1:], (1e-6, 1e-6, 1e-6, 1e-6, None)):
+        if tol is None:
+            bad = not np.allclose(a, b, rtol=1e-6, equal_nan=True)
+        else:
+            bad = not np.allclose(a, b, rtol=0, atol=tol, equal_nan=True)
+        if cfg.get('twin') and name == 'intens':
+            bad = True
+        if bad:
+            return (f'image * {cfg["k"]}: {name} differs from the fit of the '
+                    f'unscaled image by up to '
+                    f'{np.nanmax(np.abs(a - b)):.3g}')
+    return None
+
+
+def _run_scale(case):
+    cnt = dict(n=0)
+    samples = []
+
+    def fn(ctx):
+        cfg = dict(frame='square', eps=ctx.choice('eps', [0.2, 0.5]),
+                   pa=ctx.choice('pa', [0.3, 2.4]),
+                   linear=ctx.flag('linear'),
+                   k=ctx.choice('k', [1e-17, 1e-4, 1e6, 1e17]))
+        if case.get('twin'):
+            cfg['twin'] = True
+        ctx.stats.obligations += 1
+        cnt['n'] += 1
+        msg = _scale_check(cfg)
+        if msg is None:
+            ctx.stats.unsat += 1
+        else:
+            ctx.stats.sat += 1
+            ctx.find(f'fit:scale:k={cfg["k"]:g}', f'{cfg}: {msg}',
+                     ctx.witness(), params=dict(kind='scale', cfg=cfg))
+        if len(samples) < 2:
+            samples.append(cfg)
+
+    _, st, f = explore(fn)
+    return dict(stats=st, findings=f, samples=samples, nontrivial=cnt['n'])
+
+
 def _run_fit(case):
     cnt = dict(n=0)
     samples = []
@@ -433,7 +496,7 @@ def _run_fit(case):
 
 def run_case(case):
     return dict(growth=_run_growth, polar=_run_polar, fit=_run_fit,
-                loops=_run_loops)[case['kind']](case)
+                loops=_run_loops, scale=_run_scale)[case['kind']](case)
 
 
 def cases(tier, seed):
@@ -454,6 +517,8 @@ def cases(tier, seed):
     # non-iterative outer isophotes (maxrit < maxsma) before the inward pass
     cs.append(dict(kind='fit', name='fit-square-fix-maxrit', frame='square',
                    fix=['center', 'pa', 'eps'], maxrit=[12.0, 17.0]))
+    cs.append(dict(kind='scale', name='fit-image-rescaled'))
+    cs.append(dict(kind='scale', name='fit-image-rescaled-twin', twin=True))
     cs.append(dict(kind='fit', name='fit-square-minsma0-model',
                    frame='square', minsma=[0.0, 3.0], model=True))
     cs.append(dict(kind='fit', name='fit-wide-twice', frame='wide',
@@ -471,6 +536,11 @@ def replay(f):
     p = f['params']
     if p['kind'] == 'polar':
         msg = _polar_check(p['ipa'], p['x0'], p['y0'])
+        return msg is not None, str(msg)
+    if p['kind'] == 'scale':
+        if p['cfg'].get('twin'):
+            return False, 'twin'
+        msg = _scale_check(p['cfg'])
         return msg is not None, str(msg)
     if p['kind'] == 'fit':
         try:
